@@ -52,7 +52,8 @@ define void @f() !dbg !19 {
 // diWantSites is what the scaffold above requires of the attachment sites.
 func diWantSites() map[string]interface{} {
 	ref := func(id int) op { return op{"k": "ref", "id": id, "same": true} }
-	return map[string]interface{}{"global": ref(12), "func": ref(19), "inst": ref(31), "term": ref(31),
+	one := func(name string, id int) []att { return []att{{Name: name, Node: ref(id)}} }
+	return map[string]interface{}{"global": one("dbg", 12), "decl": []att{}, "func": one("dbg", 19), "inst": one("dbg", 31), "term": one("dbg", 31),
 		"args": []op{ref(27), {"k": "tuple", "id": -1, "ops": []op{}}}}
 }
 
@@ -481,7 +482,8 @@ func positionRows(defs []diDef) []*parseRow {
 		text := sb.String()
 		w := wantFromText(text)
 		ref := func(n int) op { return op{"k": "ref", "id": n, "same": true} }
-		w["sites"] = map[string]interface{}{"global": ref(id), "func": ref(19), "inst": ref(id), "term": ref(31),
+		one := func(name string, n int) []att { return []att{{Name: name, Node: ref(n)}} }
+		w["sites"] = map[string]interface{}{"global": one("foo", id), "decl": []att{}, "func": one("dbg", 19), "inst": one("foo", id), "term": one("dbg", 31),
 			"args": []op{ref(id), ref(27), {"k": "tuple", "id": -1, "ops": []op{}}}}
 		rows = append(rows, &parseRow{Src: "text", Want: w, text: text, name: k + "@every-position#"})
 	}
